@@ -69,6 +69,28 @@ def run(run, replay=None):
                               {"acknowledged": regs, "user_entries": len(entries), "distinct": len(set(entries))}))
         finally:
             srv.stop()
+    # arbitrary delay: the clock (hook) jumps between the response and the confirmation while other clients convert
+    import os
+    nowf = os.path.join(wd, "now")
+    for pause in ([1, 3_600_000, 3_600_001, 86_400_000, 259_200_000] if thorough else [3_600_001, 86_400_000]):
+        open(nowf, "w").write("1000")
+        srv = S.Server(bindir, dic, None, workers=4, now_file=nowf)
+        try:
+            if not srv.wait_listening():
+                continue
+            a = srv.conv("くるまで")
+            open(nowf, "w").write(str(1000 + pause))
+            b = srv.conv("やまだ")
+            c = srv.conv("くるまで")
+            st, _ = srv.rpc("UpdateFrequency", {"session_id": a[1]["session_id"], "candidate_id": "0"})
+            d = srv.dump()
+            got = sum(n for _, w, n, _ in (d or {"frequencies": []})["frequencies"] if w == "車")
+            o = {"pause_ms": pause, "acknowledged_confirmations": 1, "learned_count": got, "other_conversions_in_between": 2}
+            obs.append(dict(o, clients=1, pairs_per_client=1))
+            if got != 1:
+                fails.append(("confirmation-lost", {"kind": "confirmation-lost", "after": "pause"}, o))
+        finally:
+            srv.stop()
     for kind, key, w in fails[:6]:
         run.failures.append(cl.Failure("oracle", "server violates C15 (%s): %s" % (kind, json.dumps(w)), witness=w, key=key))
     run.cov.update({"evaluations": sum(o["clients"] * o["pairs_per_client"] for o in obs), "distinct_nontrivial": len(obs),
